@@ -497,6 +497,32 @@ class Rerender(Part):
 
         if show(spec["w1"], "first") is None:
             return
+        if spec.get("justified"):
+            # the REPL display hook installed by rich.pretty.install(): what it shows for a value is the pretty representation too
+            import builtins
+            import sys as _sys
+            from rich.pretty import install
+
+            old_hook, old_underscore = _sys.displayhook, getattr(builtins, "_", None)
+            con2 = Console(file=io.StringIO(), width=spec["w1"], color_system=None, force_terminal=False, _environ={})
+            try:
+                sut(install, console=con2)
+                sut(_sys.displayhook, v)
+            finally:
+                _sys.displayhook = old_hook
+                builtins._ = old_underscore
+            shown = con2.file.getvalue()
+            try:
+                ok = canon(eval(shown, dict(EVAL_ENV))) == canon(v)
+            except Exception:  # noqa
+                ok = False
+            if not ok:
+                ctx.violation("eval", "C16/hook/eval", "the display hook of install() shows %r as\n%s" % (v, shown))
+                return
+            if OC.width(repr(v)) <= spec["w1"] and shown.rstrip("\n") != repr(v):
+                ctx.violation("single-line", "C16/hook/not-repr", "repr(%r) fits in %d cells but the display hook of install() shows\n%s" % (v, spec["w1"], shown))
+                return
+            ctx.cls("display-hook")
         nested_changed = False
         for where, sub in spec["edits"]:
             x = build(sub)
